@@ -70,6 +70,10 @@ var c08ForgedFwd = []string{"for=6.6.6.6", "for=6.6.6.6; proto=https", "proto=ht
 	"for=\"[2001:db8::6]\"; Proto=https", "for=6.6.6.6; httpproto=http/1.1; proto=https", ""}
 var c08UpgradeTokens = []string{"websocket", "Websocket", "WebSocket"}
 
+// c08Chance is true with probability pct; unlike Tape.Chance the value 0 (what shrinking
+// drives every draw to) means "no", so that shrunk scenarios lose their optional parts.
+func c08Chance(g *simcore.Tape, pct int) bool { return g.Intn(100) >= 100-pct }
+
 // c08Case renders a header name in one of the spellings a client may use.
 func c08Case(g *simcore.Tape, name string) string {
 	switch g.Intn(4) {
@@ -91,7 +95,7 @@ func c08Case(g *simcore.Tape, name string) string {
 
 // c08Forge adds 1-2 forged copies of name with probability pct.
 func c08Forge(g *simcore.Tape, hs []h2Header, pct int, name string, vals []string) []h2Header {
-	if name == "" || !g.Chance(pct) {
+	if name == "" || !c08Chance(g, pct) {
 		return hs
 	}
 	n := 1 + g.Intn(2)
@@ -101,8 +105,12 @@ func c08Forge(g *simcore.Tape, hs []h2Header, pct int, name string, vals []strin
 	return hs
 }
 
-func c08Gen(g *simcore.Tape) *c08Scenario {
+func c08Gen(g *simcore.Tape, thorough bool) *c08Scenario {
 	sc := &c08Scenario{}
+	maxN := 3
+	if thorough {
+		maxN = 5
+	}
 	c := &sc.Cfg
 	c.TLS = g.Bool()
 	c.ClientIPHeader = simcore.Pick(g, []string{"", "X-Client-Ip", "x-client-ip", "Client-IP", "X-Forwarded-For", "X-Real-Ip", "x-real-ip"})
@@ -127,7 +135,7 @@ func c08Gen(g *simcore.Tape) *c08Scenario {
 		managed = append(managed, c.TLSHeader)
 	}
 
-	nc := g.Range(1, 3)
+	nc := g.Range(1, maxN)
 	id := 0
 	for ci := 0; ci < nc; ci++ {
 		cl := h2Client{Addr: simcore.Pick(g, c08PeerAddrs), TLS: c.TLS}
@@ -136,19 +144,19 @@ func c08Gen(g *simcore.Tape) *c08Scenario {
 			p, _ := strconv.Atoi(port)
 			cl.Addr = net.JoinHostPort(host, strconv.Itoa(p+100*ci))
 		}
-		n := g.Range(1, 3)
+		n := g.Range(1, maxN)
 		for k := 0; k < n; k++ {
 			rq := h2Req{ID: fmt.Sprintf("r%d", id), Method: "GET", Host: simcore.Pick(g, c08Hosts)}
 			id++
 			rq.Route = g.Intn(nr)
 			rq.Path = sc.Routes[rq.Route].Prefix + simcore.Pick(g, []string{"", "/a", "/a/b"})
-			if g.Chance(8) {
+			if c08Chance(g, 8) {
 				rq.Route = -1
 				rq.Path = "/zzz"
 			}
 			hs := []h2Header{{"Accept-Encoding", "identity"}}
-			upgrade := g.Chance(25)
-			if g.Chance(20) {
+			upgrade := c08Chance(g, 25)
+			if c08Chance(g, 20) {
 				rq.Method = "POST"
 				rq.Body = g.Bytes(g.Range(1, 300))
 				rq.BodyLen = len(rq.Body)
@@ -170,17 +178,17 @@ func c08Gen(g *simcore.Tape) *c08Scenario {
 				conn = append(conn, c08Case(g, "Upgrade"))
 				hs = append(hs, h2Header{c08Case(g, "Upgrade"), simcore.Pick(g, c08UpgradeTokens)})
 			}
-			if g.Chance(20) {
+			if c08Chance(g, 20) {
 				k := 1 + g.Intn(2)
 				for i := 0; i < k; i++ {
 					conn = append(conn, c08Case(g, simcore.Pick(g, managed)))
 				}
-				if g.Chance(30) {
+				if c08Chance(g, 30) {
 					conn = append(conn, simcore.Pick(g, []string{"keep-alive", "close"}))
 				}
 			}
 			if len(conn) > 0 {
-				if len(conn) > 1 && g.Chance(30) {
+				if len(conn) > 1 && c08Chance(g, 30) {
 					// two Connection lines
 					hs = append(hs, h2Header{"Connection", conn[0]}, h2Header{c08Case(g, "Connection"), strings.Join(conn[1:], ", ")})
 				} else {
@@ -191,10 +199,10 @@ func c08Gen(g *simcore.Tape) *c08Scenario {
 			rq.Chunks = c07GenChunks(g, 300)
 			rs := h2Resp{Status: simcore.Pick(g, []int{200, 200, 404, 500, 301}), Body: g.Bytes(g.Range(0, 200)),
 				Headers: []h2Header{{"Content-Type", "application/octet-stream"}}}
-			if g.Chance(15) {
+			if c08Chance(g, 15) {
 				rs.Headers = append(rs.Headers, h2Header{"Strict-Transport-Security", "max-age=77"})
 			}
-			if upgrade && g.Chance(80) {
+			if upgrade && c08Chance(g, 80) {
 				rs = h2Resp{Status: 101, Headers: []h2Header{{"Upgrade", "websocket"}, {"Connection", "Upgrade"}}}
 			}
 			rs.BodyLen = len(rs.Body)
@@ -222,7 +230,7 @@ func c08Table(sc *c08Scenario) string {
 }
 
 func runC08(r *simcore.Run) {
-	sc := c08Gen(r.Gen)
+	sc := c08Gen(r.Gen, r.Thorough())
 	r.SetSample(sc)
 	cfg := &config.Config{}
 	cfg.Proxy.Strategy = "rnd"
@@ -453,13 +461,23 @@ func c08Check(r *simcore.Run, e *h2Env, sc *c08Scenario, cl *h2Client, rq *h2Req
 		r.Probe("zoned_peer")
 	}
 
+	for _, name := range []string{cfg.ClientIPHeader, cfg.TLSHeader, "X-Real-Ip", "X-Forwarded-For", "X-Forwarded-Proto", "X-Forwarded-Port", "X-Forwarded-Host", "Forwarded"} {
+		if name != "" && c08Nominated(rq, name) {
+			r.Probe("nominated_managed_header")
+			break
+		}
+	}
+	if len(c08Sent(rq, "Forwarded")) > 0 || len(c08Sent(rq, "X-Forwarded-Proto")) > 0 {
+		r.Probe("client_sent_proto_or_forwarded")
+	}
+	if isUpgrade && res.Err == nil && res.Status == 101 {
+		r.Probe("upgrade_completed_101")
+	}
+
 	// fail reports a mismatch on one managed header; the signature names the header situation, never data.
 	fail := func(class, name, sig, format string, a ...any) {
-		if c08Nominated(rq, name) {
-			r.Probe("nominated_managed_header")
-			if len(up[c08Canon(name)]) == 0 {
-				sig = "stripped-by-connection-nomination"
-			}
+		if c08Nominated(rq, name) && len(up[c08Canon(name)]) == 0 {
+			sig = "stripped-by-connection-nomination"
 		}
 		r.Fail(class, kind+"/"+sig, "%s: %s [client sent %s=%q, Connection=%q; upstream received %s=%q]", what, fmt.Sprintf(format, a...),
 			name, c08Sent(rq, name), c08Sent(rq, "Connection"), c08Canon(name), up[c08Canon(name)])
@@ -577,8 +595,9 @@ func c08Check(r *simcore.Run, e *h2Env, sc *c08Scenario, cl *h2Client, rq *h2Req
 			fail("x-forwarded-port", "X-Forwarded-Port", "missing", "client sent no X-Forwarded-Port and none was supplied")
 		case len(got) != 1 || !c08In(got[0], ok):
 			sig := "wrong"
-			if rt.HostOpt != "" {
-				sig = "wrong-under-host-option"
+			_, upPort, _ := net.SplitHostPort(s.Host)
+			if rt.HostOpt != "" && len(got) == 1 && (got[0] == upPort || (upPort == "" && (got[0] == "80" || got[0] == "443"))) {
+				sig = "wrong-under-host-option" // it is the port of the rewritten Host
 			} else if strings.HasPrefix(rq.Host, "[") {
 				sig = "wrong-with-ipv6-literal-host"
 			}
